@@ -22,6 +22,23 @@ fn range_of(kind: Kind) -> (f64, f64) {
 
 pub fn run_range_stream(rep: &mut Report, p: &Params, inputs: &[In], allow_invalid_bars: bool) -> usize {
     let mut inst = Inst::new(p);
+    // every third stream runs on an instance that already consumed another stream and was reset():
+    // the range claim is per stream "since construction/reset"
+    let mut prefix_ops: Vec<serde_json::Value> = Vec::new();
+    if inputs.len() % 3 == 0 {
+        let k = inputs.len().min(3 * p.max_period().min(64) + 5);
+        for x in inputs[..k].iter().rev() {
+            let y = match x {
+                In::S(v) => In::S(v * 0.5 + 2.0),
+                In::B(b) => In::B(Bar { v: b.v * 3.0 + 1.0, ..b.scale_prices(0.5) }),
+            };
+            prefix_ops.push(y.to_json());
+            let _ = inst.feed(&y);
+        }
+        prefix_ops.push(json!({"op": "reset"}));
+        let _ = inst.reset();
+        rep.count("streams_on_recycled_instance(reset_after_prefix)");
+    }
     let mut rm = RefModel::new(p);
     let (lo, hi) = range_of(p.kind);
     let n = p.n();
@@ -92,7 +109,9 @@ pub fn run_range_stream(rep: &mut Report, p: &Params, inputs: &[In], allow_inval
             let sig = format!("{}/c07.range/{}/{}", p.kind.name(), class, phase(t, n));
             if rep.is_new_sig(&sig) {
                 let detail = format!("{} t={}: output {:e} outside [{}, {}] ± {:e} (reference {:e}, c={:e})", p.label(), t, v, lo, hi, slack, r.v[0].to_f64(), r.c[0]);
-                let replay = replay_range("C07", &sig, p, ops_json(&inputs[..=i]), 0, lo - slack, hi + slack, &detail);
+                let mut ops = prefix_ops.clone();
+                ops.extend(inputs[..=i].iter().map(|x| x.to_json()));
+                let replay = replay_range("C07", &sig, p, serde_json::Value::Array(ops), 0, lo - slack, hi + slack, &detail);
                 rep.violation(sig, detail, replay);
             } else {
                 rep.violation_again(&sig);
